@@ -66,6 +66,41 @@ func evalC01(op string, args []string) string {
 		if w2, err2 := p.MarshalBinary(); err2 != nil || !bytes.Equal(w, w2) {
 			return "ok " + hx(w) + " second-marshal-differs"
 		}
+		// … and of the packet AS IT IS NOW: the same *Packet, one value replaced by one of another size (the count of
+		// attributes unchanged), must marshal like a packet built afresh with those attributes - nothing measured or
+		// laid out by the first call may be reused
+		if len(p.Attributes) > 0 {
+			if diff := func() (d string) {
+				defer func() {
+					if r := recover(); r != nil {
+						d = " remarshal-panics"
+					}
+				}()
+				k := len(w) % len(p.Attributes)
+				old := p.Attributes[k]
+				nv := append(append(radius.Attribute{}, old.Attribute...), 0xab, 0xcd, 0xef)
+				if len(old.Attribute) >= 2 && len(w)%2 == 0 {
+					nv = append(radius.Attribute{}, old.Attribute[:len(old.Attribute)/2]...)
+				}
+				if len(nv) > 253 {
+					nv = nv[:10]
+				}
+				p.Attributes[k] = &radius.AVP{Type: old.Type, Attribute: nv}
+				again, errA := p.MarshalBinary()
+				fresh := &radius.Packet{Code: p.Code, Identifier: p.Identifier, Authenticator: p.Authenticator}
+				for _, a := range p.Attributes {
+					fresh.Attributes = append(fresh.Attributes, &radius.AVP{Type: a.Type, Attribute: a.Attribute})
+				}
+				want, errW := fresh.MarshalBinary()
+				p.Attributes[k] = old
+				if (errA == nil) != (errW == nil) || !bytes.Equal(again, want) {
+					return " remarshal-differs"
+				}
+				return ""
+			}(); diff != "" {
+				return "ok " + hx(w) + diff
+			}
+		}
 		q, err := radius.Parse(w, nil)
 		if err != nil {
 			return "ok " + hx(w) + " err"
